@@ -59,7 +59,9 @@ def blas_cases(rnd, n, large):
         c["conflict"] = None
         if large:
             keys = [k for k in INTKEYS if k in c17.KW[f] or ("@" + k) in c17.POS[f]]
-            for k in rnd.sample(keys, rnd.choice([1, 1, 1, 1, 2])):
+            # the arguments that are MULTIPLIED in a footprint (leading dimensions, increments, band widths) get more of the huge values
+            wkeys = [k for k in keys for _ in range(3 if (k.startswith("ld") or k.startswith("inc") or k in ("k", "kl", "ku")) else 1)]
+            for k in set(rnd.choice(wkeys) for _ in range(rnd.choice([1, 1, 1, 1, 2]))):
                 c["a"][k] = rnd.choice(BIG)
         cases.append(c)
     return cases
